@@ -13,7 +13,7 @@ U = {torch.float64: 2.0 ** -53, torch.complex128: 2.0 ** -53}
 EPSS = [1e-14, 1e-8, 1e-3, 1e-1]
 
 
-def rand_tt(tt, modes, rmax, gen, dt, decay=False):
+def rand_tt(tt, modes, rmax, gen, dt, decay=False, scale=1.0):
     """random TT (tensor if all column sizes are 1, else operator) with ranks min(rmax, what the sizes allow)"""
     d = len(modes)
     is_t = all(n == 1 for _, n in modes)
@@ -28,6 +28,8 @@ def rand_tt(tt, modes, rmax, gen, dt, decay=False):
         if dt.is_complex:
             c = c.to(dt) * torch.exp(1j * 6.283 * torch.rand(sh, generator=gen, dtype=torch.float64)).to(dt)
         cores.append(c.to(dt))
+    if scale != 1.0:
+        cores[-1] = cores[-1] * scale          # the promise is relative to the norm: a tiny (or huge) tensor is an input like any other
     return tt.TT(cores)
 
 
@@ -77,8 +79,8 @@ def handler_reshape(st, opts):
     shape_arg = [int(m) for m, _ in tgt] if is_t else [(int(m), int(n)) for m, n in tgt]
     want_N = [int(m) for m, _ in tgt] if is_t else [int(n) for _, n in tgt]
     want_M = [] if is_t else [int(m) for m, _ in tgt]
-    for rmax, dt, decay in ((1, torch.float64, False), (2, torch.complex128, False), (3, torch.float64, True)):
-        x = rand_tt(tt, src, rmax, gen, dt, decay)
+    for rmax, dt, decay, scale in ((1, torch.float64, False, 1.0), (2, torch.complex128, False, 1.0), (3, torch.float64, True, 1.0), (3, torch.float64, True, 1e-6)):
+        x = rand_tt(tt, src, rmax, gen, dt, decay, scale)
         dense = project.dense(x.cores)
         ref = dense.reshape(want_M + want_N)
         for eps in ([None] + EPSS if rmax == 2 else [None, 1e-3]):
@@ -90,7 +92,7 @@ def handler_reshape(st, opts):
                 problems.append(P("exception", "raised %s: %s (ranks %s, eps %s)" % (type(ex).__name__, str(ex)[:160], x.R, eps)))
                 continue
             problems += compare(P, tt, y, "tt" if is_t else "ttm", want_N, want_M, ref, 1e-16 if eps is None else eps, dt,
-                                "ranks %s %s eps=%s" % (x.R, str(dt).replace("torch.", ""), eps), x, snap)
+                                "ranks %s %s eps=%s scale=%g" % (x.R, str(dt).replace("torch.", ""), eps, scale), x, snap)
     stats["nontrivial"] = 1 if len(src) >= 2 or len(tgt) >= 2 else 0
     return {"problems": problems, "stats": stats, "sample": {"src": src, "tgt": tgt, "svd_splits": st["nsplit"]}}
 
@@ -113,8 +115,8 @@ def handler_permute(st, opts):
                 "replay": {"engine": "vf.shaperun", "kind": "permute", "state": st}}
     for kind in ("tt", "ttm"):
         modes = [(n, 1) for n in sizes] if kind == "tt" else [(n, 3 if n == 2 else 2) for n in sizes]
-        for rmax, dt, decay in ((2, torch.float64, False), (3, torch.complex128, True)):
-            x = rand_tt(tt, modes, rmax, gen, dt, decay)
+        for rmax, dt, decay, scale in ((2, torch.float64, False, 1.0), (3, torch.complex128, True, 1.0), (3, torch.float64, True, 1e-6)):
+            x = rand_tt(tt, modes, rmax, gen, dt, decay, scale)
             dense = project.dense(x.cores)
             if kind == "tt":
                 ref = dense.permute(dims)
@@ -131,7 +133,7 @@ def handler_permute(st, opts):
                     problems.append(P("exception", "%s raised %s: %s" % (kind, type(ex).__name__, str(ex)[:160])))
                     continue
                 problems += compare(P, tt, y, kind, wN, wM, ref.contiguous(), 1e-12 if eps is None else eps, dt,
-                                    "%s ranks %s eps=%s" % (kind, x.R, eps), x, snap)
+                                    "%s ranks %s eps=%s scale=%g" % (kind, x.R, eps, scale), x, snap)
     return {"problems": problems, "stats": stats, "sample": {"dims": dims, "swaps": st["swaps"]}}
 
 
@@ -152,8 +154,8 @@ def handler_qtt(st, opts):
         kk = dict(key); kk["cls"] = cls; kk["op"] = op
         return {"prop": "C10", "cls": cls, "op": op, "key": kk, "msg": "%s N=%s: %s" % (op, N, msg),
                 "replay": {"engine": "vf.shaperun", "kind": "qtt", "state": st}}
-    for rmax, dt in ((2, torch.float64), (3, torch.complex128)):
-        x = rand_tt(tt, [(n, 1) for n in N], rmax, gen, dt)
+    for rmax, dt, scale in ((2, torch.float64, 1.0), (3, torch.complex128, 1.0), (3, torch.float64, 1e-6)):
+        x = rand_tt(tt, [(n, 1) for n in N], rmax, gen, dt, False, scale)
         dense = project.dense(x.cores)
         for eps in (None, 1e-8, 1e-2):
             stats["calls"] = stats.get("calls", 0) + 1
